@@ -142,6 +142,11 @@ pub fn main(args: &[String]) {
         if let Some(mut b) = bad {
             b["behaviour"] = beh.clone();
             rep.mismatch(b);
+            if rep.mismatches.len() >= 12 {
+                // every further mismatch of this kind costs seconds of waiting: the verdict is clear
+                rep.notes.push("stopped after 12 mismatches".into());
+                break;
+            }
         }
     }
     let _ = std::fs::remove_dir_all(&work);
